@@ -142,7 +142,7 @@ ToStep(ev) ==
 -----------------------------------------------------------------------------
 (* Conformance of the observed step with Apply, per variable group         *)
 
-Groups == {"qstats", "ack", "bal", "supply", "pause", "params", "stats", "env", "req", "fired", "actions", "ident", "genesis", "parse"}
+Groups == {"events", "xfers", "qstats", "ack", "bal", "supply", "pause", "params", "stats", "env", "req", "fired", "actions", "ident", "genesis", "parse"}
 
 Mismatch_(ev, S) ==
   LET exp == Apply(S.pre, ev.in)
@@ -157,6 +157,11 @@ Mismatch_(ev, S) ==
           [] g = "params" -> <<exp.st.maxPT, exp.st.hasParams>> # <<S.post.maxPT, S.post.hasParams>>
           [] g = "stats"  -> <<exp.st.amt, exp.st.cnt>> # <<S.post.amt, S.post.cnt>>
           [] g = "env"    -> exp.st.env # S.post.env
+          [] g = "xfers"  -> ev.in.t = "recv" /\ S.ok /\ exp.ok /\ ForOrbiter(ev.in) /\ ev.in.mk = "PAYLOAD"
+                             /\ [i \in DOMAIN ev.obs.xfers |-> XF(ev.obs.xfers[i].from, ev.obs.xfers[i].to, ev.obs.xfers[i].denom, ev.obs.xfers[i].amt)]
+                                # XfersOf(S.pre, ev.in)
+          [] g = "events" -> ev.in.t = "recv" /\ S.ok /\ exp.ok /\ ForOrbiter(ev.in) /\ ev.in.mk = "PAYLOAD"
+                             /\ SelectSeq(ev.obs.events, LAMBDA t : t \in StageEventTypes) # EventsOf(ev.in)
           [] g = "qstats" -> ev.in.t = "query" /\ [i \in DOMAIN S.pages |-> [n |-> Len(S.pages[i].items), h |-> S.pages[i].hasNext, e |-> S.pages[i].err]]
                                                   # [i \in DOMAIN ModelPages(S.pre, ev.in.q) |-> LET m == ModelPages(S.pre, ev.in.q)[i] IN [n |-> Len(m.items), h |-> m.hasNext, e |-> m.err]]
           [] g = "parse"  -> S.hasParse /\ ev.in.mk = "PAYLOAD" /\ (ParseOK(ev.in) /\ PayloadValid(ev.in)) # S.parse.ok
